@@ -49,7 +49,8 @@ class Protocol(Component):
         if event.name.endswith('_success'):
             source_event = args[0]
 
-            if getattr(args[0], 'node_call_id', False) is not False:
+            # every Protocol of the tree sees this event: only the one that fired the call answers
+            if getattr(args[0], 'node_call_id', False) is not False and source_event.value.manager is self:
                 self.send_result(source_event.node_call_id, source_event.value)
 
     def send(self, event):
